@@ -40,8 +40,13 @@ def main():
         if pid in have and (only is None or pid in only):
             mod = importlib.import_module(f"vk.props.{pid}")
             nth = sum(len(v) for v in mod.THEOREMS.values())
+            from vk.runner import collect_obligations
+            regs_all, ths_all, _contracts, _via, upstream = collect_obligations(pid)
+            nall = sum(len(v) for v in ths_all.values())
+            up_txt = (f" plus the {nall - nth} equality theorems of the properties it is downstream of ({', '.join(upstream)}: kernels = reference estimator, pipeline = reference "
+                      f"estimator on its own plan; regions {', '.join(r for r in regs_all if r not in mod.GEN_REGIONS)}), which are obligations of this check too;") if upstream else ""
             text = (f"Machine-checked proof: {nth} Lean theorems (modules {', '.join(m_.split('.')[-1] for m_ in mod.THEOREMS)}) state the property over "
-                    f"{'code regenerated from /repo (regions ' + ', '.join(mod.GEN_REGIONS) + ') and ' if mod.GEN_REGIONS else ''}executable hand models; "
+                    f"{'code regenerated from /repo (regions ' + ', '.join(mod.GEN_REGIONS) + ') and ' if mod.GEN_REGIONS else ''}executable hand models;" + up_txt + " "
                     "the models are run against the real implementation on every check (correspondence) and the property's predicate is searched for a failing input on the real code. "
                     + PARTIAL.get(pid, "Full statement proved over the real numbers; floating-point rounding is covered by sound tolerances in the correspondence/oracle, not by theorem."))
             checks.append({
